@@ -70,3 +70,27 @@ Example C08_example :
                ACallerWait; ALoopEnqClosed; ALoopDone 0; ALoopFinish; ACallerRetFin] = Some s
             /\ cp s = CRet [EUser 5] /\ In (EvSkip 1 EInvalid) (log s) /\ In (EvStart 2) (log s).
 Proof. eexists. split; [vm_compute; reflexivity|]. cbn. intuition. Qed.
+
+(* ---- the generated code (Layer 2): what ContinueOnError produces is a *saturated*
+   execution of the generated jobs - every job all of whose dependencies returned nil has
+   run (C08_runs above, transported by C02_every_scheduler_run). In every such execution,
+   for every flow or Parallel embedding with unique providers and a source for every
+   consumed type: a function ran exactly when the flow semantics does not block it (i.e.
+   when nothing it transitively depends on failed), and the failures are exactly the
+   failures of the semantics - no more, no fewer. Layer 2 is used qualified. *)
+From CffVerif Require FlowSemModel FlowOpModel FlowOpProofs FlowComplete FlowSaturated.
+
+Theorem C08_generated_runs :
+  forall f sc, FlowOpProofs.unique_providers f -> FlowComplete.all_provided_b f = true ->
+  forall e k, FlowOpProofs.reach f sc e -> FlowSaturated.saturated f e -> k < length (FlowSemModel.gtasks f) ->
+    (In (FlowOpModel.FT k) (FlowOpModel.ran e) <->
+     forall pc, FlowSemModel.tresult f sc (FlowSemModel.fuel_of f) k <> FlowSemModel.RBlocked pc).
+Proof. exact FlowSaturated.saturated_ran_iff. Qed.
+Print Assumptions C08_generated_runs.
+
+Theorem C08_generated_failures :
+  forall f sc, FlowOpProofs.unique_providers f -> FlowComplete.all_provided_b f = true ->
+  forall e er, FlowOpProofs.reach f sc e -> FlowSaturated.saturated f e ->
+    (In er (FlowOpModel.xfail e) <-> In er (FlowSemModel.failures f sc)).
+Proof. exact FlowSaturated.saturated_failures. Qed.
+Print Assumptions C08_generated_failures.
